@@ -31,14 +31,21 @@ theorem export_kind (dt : DType F) (hwf : dt.WF) (v : PVal F) (hv : Valid dt v) 
 
 theorem wire_roundtrip_node (dt : DType F) (hwf : dt.WF) (v : PVal F) (hv : Valid dt v) (hb : B64Law) :
     ∃ v', (exportValue dt v >>= importValue dt) = .ok v' ∧ pyEq v' v = true := by
-  obtain ⟨j, v', h1, _, _, _, h4, h5⟩ := wire_core dt v hwf hv hb
+  obtain ⟨j, v', h1, _, _, _, h4, h5, _⟩ := wire_core dt v hwf hv hb
   exact ⟨v', by rw [h1]; exact h4, h5⟩
 
 /-- … through the JSON text: any `dumps`/`loads` pair that reads back what it wrote for strict values -/
 theorem wire_roundtrip_text (T : JsonText F) (dt : DType F) (hwf : dt.WF) (v : PVal F) (hv : Valid dt v) (hb : B64Law) :
     ∃ j v', exportValue dt v = .ok j ∧ T.loads (T.dumps j) = some j ∧ importValue dt j = .ok v' ∧ pyEq v' v = true := by
-  obtain ⟨j, v', h1, _, h3, _, h4, h5⟩ := wire_core dt v hwf hv hb
+  obtain ⟨j, v', h1, _, h3, _, h4, h5, _⟩ := wire_core dt v hwf hv hb
   exact ⟨j, v', h1, T.loads_dumps j h3, h4, h5⟩
+
+/-- a canonical value (no `-0.0` leaf: what validation returns) comes back as the very same value, not only an equal one -/
+theorem wire_roundtrip_exact (dt : DType F) (hwf : dt.WF) (v : PVal F) (hv : Valid dt v) (hc : Canon v) (hb : B64Law) :
+    (exportValue dt v >>= importValue dt) = .ok v := by
+  obtain ⟨j, v', h1, _, _, _, h4, _, h6⟩ := wire_core dt v hwf hv hb
+  rw [h1, ← h6 hc]
+  exact h4
 
 /-! ## … and on a client that rebuilt the datatype from the node's description -/
 
@@ -89,8 +96,27 @@ theorem client_string_write (lib : TextLib F) (hl : TextLib.Lawful lib) (hb : B6
       importValue dt j = .ok v'' ∧ pyEq v'' v' = true := by
   obtain ⟨t, v', h1, h2, h3, h4, hs⟩ := text_rt lib hl cdt (wft_clientOf dt cdt (wft_of_wf dt hwf) hc) hnames v hv hcan
     (textComplete_clientOf dt cdt v hc)
-  obtain ⟨j, v'', e1, e2, e3, _, e4, e5⟩ := send_core dt v' hwf (sendable_clientOf dt cdt v' hc hs) hb
-  exact ⟨t, v', j, v'', h1, h2, h3, h4, by simp [clientSetFromString, h2, export_clientOf dt cdt v' hc, e1], e2, e3, e4, e5⟩
+  obtain ⟨j, v'', e1, e2, e3, _, e4, e5, _⟩ := send_core dt v' hwf (sendable_clientOf dt cdt v' hc hs) hb
+  exact ⟨t, v', j, v'', h1, h2, h3, h4, by simp [clientSetFromString, clientSet, h2, export_clientOf dt cdt v' hc, e1], e2, e3, e4, e5⟩
+
+/-- the whole path of a value through a client: the node exports the canonical valid value `v` (`update` message), the
+client's `updateValue` imports it into a cache entry holding exactly `v`, `str(entry)` is a text `from_string` accepts,
+reading it as `v'` (same text form, equal to `v` at every non-float leaf), and what `setParameterFromString` sends for
+that text is strict JSON of the prescribed kind which the node imports to a value equal to `v'`.
+`Valid cdt v`: the value also lies in the value set of the rebuilt type (its scaled limits are the node's snapped to
+the grid — the same set wherever the grid reproduces the snapped limits; always so for trees without scaled leaves). -/
+theorem client_cache_string_write (lib : TextLib F) (hl : TextLib.Lawful lib) (hb : B64Law) (dt cdt : DType F) (hwf : dt.WF)
+    (hc : clientOf dt = some cdt) (hnames : NamesStripped lib cdt) (v : PVal F) (hv : Valid dt v) (hvc : Valid cdt v)
+    (hcan : Canon v) :
+    ∃ j item t v' j' v'', exportValue dt v = .ok j ∧ updateValue cdt j = .ok item ∧ item.value = v ∧
+      item.str lib cdt = some t ∧ fromString lib cdt t = .ok v' ∧ toString lib cdt v' = some t ∧ SameButFloats v' v ∧
+      clientSetFromString lib cdt t = .ok j' ∧ KindOK dt j' ∧ StrictJ j' ∧ importValue dt j' = .ok v'' ∧ pyEq v'' v' = true := by
+  obtain ⟨j, w, h1, _, _, _, h4, _, h6⟩ := wire_core dt v hwf hv hb
+  have hw : w = v := h6 hcan
+  subst hw
+  obtain ⟨t, v', j', v'', c1, c2, c3, c4, c5, c6, c7, c8, c9⟩ := client_string_write lib hl hb dt cdt hwf hc hnames w hvc hcan
+  exact ⟨j, ⟨w, none⟩, t, v', j', v'', h1, by simp [updateValue, client_imports_alike dt cdt hc, h4], rfl, c1, c2, c3, c4, c5,
+    c6, c7, c8, c9⟩
 
 /-! ## constants of the source -/
 
@@ -158,6 +184,19 @@ example (hb : B64Law) : ∃ t v' j v'', cacheItemStr exLib exClient exValue = so
     KindOK exTree j ∧ StrictJ j ∧ importValue exTree j = .ok v'' ∧ pyEq v'' v' = true :=
   client_string_write exLib exLib_lawful hb exTree exClient exTree_wf exClient_eq
     (by simp [exClient, NamesStripped, NamesStrippedFields, NamesStrippedList, exLib]) exValue
+    (of_decide_eq_true (by decide +kernel : validB exClient exValue = true))
+    (by simp [exValue, Canon, CanonFields, CanonList, FloatOps.same, FloatOps.addZero])
+
+example (hb : B64Law) : (exportValue exTree exValue >>= importValue exTree) = .ok exValue :=
+  wire_roundtrip_exact exTree exTree_wf exValue exValue_valid
+    (by simp [exValue, Canon, CanonFields, CanonList, FloatOps.same, FloatOps.addZero]) hb
+
+example (hb : B64Law) : ∃ j item t v' j' v'', exportValue exTree exValue = .ok j ∧ updateValue exClient j = .ok item ∧
+    item.value = exValue ∧ item.str exLib exClient = some t ∧ fromString exLib exClient t = .ok v' ∧
+    toString exLib exClient v' = some t ∧ SameButFloats v' exValue ∧ clientSetFromString exLib exClient t = .ok j' ∧
+    KindOK exTree j' ∧ StrictJ j' ∧ importValue exTree j' = .ok v'' ∧ pyEq v'' v' = true :=
+  client_cache_string_write exLib exLib_lawful hb exTree exClient exTree_wf exClient_eq
+    (by simp [exClient, NamesStripped, NamesStrippedFields, NamesStrippedList, exLib]) exValue exValue_valid
     (of_decide_eq_true (by decide +kernel : validB exClient exValue = true))
     (by simp [exValue, Canon, CanonFields, CanonList, FloatOps.same, FloatOps.addZero])
 
